@@ -34,6 +34,11 @@ def correspond(ctx, nhist=None, variants=("default",), hi_frac=(70, 20, 8, 2), u
         op = "J %d %d" % (t, h) if t % 3 else "S %d %d" % (t, h)
         hists.append((b, ["NEW %d %d" % (rng.below(2000), iterlib.MAX64), "N", op] + (["N", "P", "P", "N"] if t % 2 else ["P", "N", "N", "P"])))
         hists.append((b, ["NEW %d %d" % (rng.below(2000), iterlib.MAX64), "P", op] + (["P", "N"] if t % 2 else ["N", "P"])))
+        # ... and as the very first operation of a fresh iterator / right after clear() (no prime generated yet)
+        op2 = "S %d %d" % (t, h) if b == "c" else "J %d %d" % (t, h)
+        hists.append((b, ["NEW %d %d" % (rng.below(2000), iterlib.MAX64), op2] + (["N", "P"] if t % 2 else ["P", "N"])))
+        if t % 4 == 0:
+            hists.append((b, ["NEW %d %d" % (rng.below(2000), iterlib.MAX64), "N", "C", op2] + (["P", "N"] if t % 8 else ["N", "P"])))
     mismatches = []
     samples = []
     sigs = set()
